@@ -374,7 +374,7 @@ def weave(src, vspecs, vacuity=False):
                            'decl_of_trait': block_type_name(e['block']) if re.match(r'\s*(pub\s+)?trait\b', e['block']) else None})
         if body_close is None:
             continue
-        if vacuity:
+        if vacuity and 'external_body' not in (e.get('attr') or ''):
             edits.append(Edit(sig_end + 1, '\n proof { assert(false); } //@@VACUITY-PROBE %s\n' % fnid, 3,
                               [None, {'fn': fnid, 'label': 'vacuity-probe', 'props': [], 'kind': 'vacuity', 'where': e['where'], 'text': ''}, None]))
         lps = loops_in(src, sig_end, body_close)
